@@ -157,6 +157,17 @@ struct World {
     counts: Vec<(String, u64)>,
 }
 
+/// Scratch directories live under the run's output directory, NOT under /tmp: a `NodeRecordStore` opened
+/// with `NodeRecordStoreConfig::default()` (storage_dir = temp_dir) by any concurrently running test or
+/// node walks /tmp recursively at start-up and deletes every hex-named file it cannot decrypt.
+static SCRATCH: std::sync::OnceLock<PathBuf> = std::sync::OnceLock::new();
+
+fn scratch_dir(prefix: &str) -> tempfile::TempDir {
+    let base = SCRATCH.get().cloned().unwrap_or_else(std::env::temp_dir);
+    std::fs::create_dir_all(&base).expect("scratch base");
+    tempfile::Builder::new().prefix(prefix).tempdir_in(base).expect("tempdir")
+}
+
 fn new_lane_rt() -> tokio::runtime::Runtime {
     tokio::runtime::Builder::new_current_thread()
         .event_interval(1)
@@ -173,7 +184,7 @@ fn big_to_u256(b: &BigUint) -> U256 {
 
 impl World {
     fn new(max: usize, cache: usize, peer_seed: u64) -> World {
-        let root = tempfile::Builder::new().prefix("verif-store-").tempdir().expect("tempdir");
+        let root = scratch_dir("store-");
         let storage = root.path().join("record_store");
         std::fs::create_dir_all(&storage).expect("mkdir");
         let mut sk = sha(&[b"peer", &peer_seed.to_le_bytes()]);
@@ -952,7 +963,7 @@ impl World {
 
     /// copy the directory, give key k's file the given content, open a store on the copy and compare with the baseline
     fn reopen_with_prefix(&self, k: u64, content: &[u8], baseline: &[(u64, String)]) -> Option<String> {
-        let tmp = tempfile::Builder::new().prefix("verif-store-torn-").tempdir().expect("tempdir");
+        let tmp = scratch_dir("torn-");
         let st = tmp.path().join("record_store");
         std::fs::create_dir_all(&st).expect("mkdir");
         if let Ok(rd) = std::fs::read_dir(&self.storage) {
@@ -1322,6 +1333,7 @@ fn main() {
         _ => Mode::Sched,
     };
     let mut r = Runner { out: Out::new(&args.out), w: None, n_hist: 0 };
+    let _ = SCRATCH.set(std::fs::canonicalize(&args.out).unwrap_or(args.out.clone()).join("scratch"));
     if let Some(p) = &args.replay {
         for l in common::read_lines(p) {
             r.line(&l);
